@@ -69,6 +69,17 @@ Theorem C17_single_char_rejected :
 Proof. exact single_char_rejected. Qed.
 Print Assumptions C17_single_char_rejected.
 
+(** ParseAccountID rejects it too when the new character is a base64 digit of
+    either alphabet (such a character is not ':', so the raw attempt fails) *)
+Theorem C17_single_char_rejected_parse_account :
+  forall tab url bounce testnet wc addr i c' d',
+  tab = crc16_table_ref -> length addr = 32%nat -> bytes_ok addr -> (i < 48)%nat ->
+  b64_digit true (plus_slash c') = Some d' ->
+  d' <> nth i (human_digits tab bounce testnet wc addr) 0 ->
+  parse_account (set_nth i c' (print_human tab url bounce testnet wc addr)) = Err EOther.
+Proof. exact single_char_rejected_parse_account. Qed.
+Print Assumptions C17_single_char_rejected_parse_account.
+
 (** ParseAccountID (raw attempt first, then user-friendly) inverts ToHuman too *)
 Theorem C17_parse_account_human :
   forall tab url bounce testnet wc addr,
@@ -272,16 +283,19 @@ Proof.
     split; vm_compute; reflexivity.
 Qed.
 
-(* FINDING (liteclient ParseADNLAddress): a correctly padded last quantum
-   decodes to fewer than 35 bytes and buf[33:] panics *)
-Example C17_adnl_padded_input_panics :
+(* OBSERVATION OUTSIDE THE PROPERTY (C17 states the round trip of well-formed
+   ADNL text; behaviour on malformed text is not part of it, and this input
+   class is not compared in the correspondence run): in liteclient
+   ParseADNLAddress a correctly padded last quantum decodes to fewer than 35
+   bytes and buf[33:] panics; the model records that as Panic *)
+Example C17_note_adnl_padded_input_panics :
   adnl_parse crc16_table_ref (firstn 49 (adnl_print crc16_table_ref (repeat 0 32)) ++ repeat 61 6)
   = Panic PSlice.
 Proof. vm_compute. reflexivity. Qed.
 
-(* FINDING (account.go ParseAddress): the base64 decoding error is ignored, so
-   a valid address followed by garbage is accepted *)
-Example C17_parse_address_trailing_garbage_accepted :
+(* OBSERVATION OUTSIDE THE PROPERTY (account.go ParseAddress): the base64
+   decoding error is ignored, so a valid address followed by garbage is accepted *)
+Example C17_note_parse_address_trailing_garbage_accepted :
   let s := print_human crc16_table_ref true true false 0 (repeat 0 32) in
   parse_human (s ++ [33]) = Err EOther /\
   parse_address_lax (s ++ [33]) = Ok (0%Z, repeat 0 32, true).
